@@ -128,9 +128,9 @@ def _rand_op(rng, filled, n):
         return ["sort", s, _rand_key(rng), rng.random() < 0.5, inplace, d]
     if r < 0.46:
         return ["shuffle", s, inplace, d]
-    if r < 0.53:
+    if r < 0.51:
         return ["groupby", s, _rand_key(rng), rng.choice(["agentset", "list"])]
-    if r < 0.57:
+    if r < 0.545:
         return ["groupget", s, _rand_key(rng), rng.randint(-1, 3), d]
     if r < 0.58:
         w = rng.random()
@@ -139,43 +139,43 @@ def _rand_op(rng, filled, n):
         if w < 0.75:
             return ["groupagg", s, _rand_key(rng), rng.choice([0, 0, 1, 2]), rng.choice(["sum", "min", "max", "len"])]
         return ["groupdoset", s, _rand_key(rng), rng.choice([0, 1, 2]), rng.randint(-1, 3)]
-    if r < 0.65:
+    if r < 0.64:
         names = [rng.choice([0, 0, 1, 2]) for _ in range(rng.randint(1, 3))]
         if rng.random() < 0.05:
             names = []
         mode = 0 if rng.random() < 0.5 else (1 if rng.random() < 0.93 else 2)
         return ["get", s, names, rng.random() < 0.5, mode, rng.choice([-7, 0, 9])]
-    if r < 0.70:
+    if r < 0.685:
         return ["set", s, rng.choice([0, 1, 2]), rng.randint(-1, 3)]
-    if r < 0.75:
+    if r < 0.73:
         return ["agg", s, rng.choice([0, 0, 1, 2]), rng.choice(["sum", "min", "max", "len"])]
-    if r < 0.80:
+    if r < 0.775:
         return ["map", s, ["key", _rand_key(rng)] if rng.random() < 0.6 else ["meth", rng.randint(-2, 2)]]
-    if r < 0.85:
+    if r < 0.82:
         return ["add", s, aid]
-    if r < 0.89:
+    if r < 0.855:
         return ["discard", s, aid]
-    if r < 0.93:
+    if r < 0.89:
         return ["remove", s, aid]
-    if r < 0.95:
+    if r < 0.905:
         return ["contains", s, aid]
-    if r < 0.96:
+    if r < 0.915:
         return ["len", s]
-    if r < 0.98:
+    if r < 0.935:
         return ["index", s, rng.randint(-n - 1, n + 1)]
-    if r < 0.985:
+    if r < 0.95:
         lo = rng.choice([None, rng.randint(-n - 1, n + 1)])
         hi = rng.choice([None, rng.randint(-n - 1, n + 1)])
         return ["slice", s, lo, hi]
-    if r < 0.988:
+    if r < 0.955:
         return ["iter", s]
-    if r < 0.992:
+    if r < 0.965:
         return ["pop", s]
-    if r < 0.993:
+    if r < 0.968:
         return ["clear", s]
-    if r < 0.996:
+    if r < 0.98:
         return ["indexof", s, aid]
-    if r < 0.998:
+    if r < 0.99:
         return ["count", s, aid]
     return ["reversed", s]
 
